@@ -51,9 +51,10 @@ Proof. intros. apply schedule_independent. Qed.
 Print Assumptions C05_schedule_independent.
 
 (* the premise of that model, checked on the current source: no global item with interior mutability,
-   no unsafe code beyond the bytemuck marker impls *)
-Theorem C05_no_shared_mutable_state : shared_mutable_statics = 0 /\ unsafe_sites = 0.
-Proof. split; exact eq_refl. Qed.
+   no unsafe code beyond the bytemuck marker impls, no mention of an interior-mutability type (Cell, RefCell, Atomic*, Mutex,
+   OnceCell, ...) anywhere outside the reviewed call-local uses *)
+Theorem C05_no_shared_mutable_state : shared_mutable_statics = 0 /\ unsafe_sites = 0 /\ unreviewed_interior_mutability_sites = 0.
+Proof. repeat split; exact eq_refl. Qed.
 Print Assumptions C05_no_shared_mutable_state.
 
 (* the repaired defect, as a statement about the OLD shape (no leave() for an empty buffer) *)
